@@ -1327,6 +1327,11 @@ def emit_agree(sh, tail=2):
         "    let cs: (u8, u32) = match &rs { Ok(_) => (0, 0), Err(e) => %s(e) };" % ec,
         "    let ca_code: (u8, u32) = match &ra { Ok(_) => (0, 0), Err(e) => if e.is_eof() { (100, 0) } else { %s(e) } };" % ec,
         "    let cb: (u8, u32) = match &rb { Ok(Some(_)) => (0, 0), Ok(None) => (100, 0), Err(e) => %s(e) };" % ec,
+    ] + ([
+        # first obligation of the scenario: Kani cuts a path after a failed assertion, so an obligation that
+        # comes after another property's would be masked by it
+        '    vassert!(ca_code.0 != 0 && cb.0 != 0, "C16|packet.empty_filter|a SUBSCRIBE/UNSUBSCRIBE carrying an empty topic filter is decoded to a packet by the blocking/async decoder although the constructor rejects the empty filter");',
+    ] if b.empty_filter else []) + [
         '    vassert!(ca_code == cb, "C06|blocking_vs_async|the blocking decoder differs from the async decoder with end-of-input mapped to incomplete");',
         "    if cs.0 == 0 {",
         '        vassert!(ca_code.0 == 0 && cb.0 == 0, "C06|strict_accepts.others_reject|the strict decoder accepts but the blocking/async decoders do not return a packet");',
@@ -1347,8 +1352,6 @@ def emit_agree(sh, tail=2):
     lines.append("    if let Ok(Some(pb)) = &rb {")
     lines += fields("pb", "blocking", "        ")
     lines.append("    }")
-    if b.empty_filter:
-        lines.append('    vassert!(ca_code.0 != 0 && cb.0 != 0, "C16|packet.empty_filter|a SUBSCRIBE/UNSUBSCRIBE carrying an empty topic filter is decoded to a packet by the blocking/async decoder although the constructor rejects the empty filter");')
     lines.append("    done(rs); done(ra); done(rb);")
     lines.append("}")
     unwind = max(max_loop(sh), 6) + 2
